@@ -21,6 +21,7 @@ import (
 	"os"
 	"path/filepath"
 	"runtime"
+	"strconv"
 	"strings"
 	"sync/atomic"
 	"testing"
@@ -35,6 +36,7 @@ import (
 	"google.golang.org/grpc"
 	"google.golang.org/grpc/codes"
 	"google.golang.org/grpc/credentials/insecure"
+	"google.golang.org/grpc/metadata"
 	"google.golang.org/grpc/status"
 	"gopkg.in/yaml.v2"
 )
@@ -52,6 +54,10 @@ type vc20Fixture struct {
 	// rlBackend, if not nil, is the fake rate-limit backend the environment
 	// points to; otherwise nothing listens at the backend's address.
 	rlBackend *vc20RateLimitBackend
+
+	// profBackend, if not nil, is the fake profiles backend: the exercise
+	// then runs builder.initProfileDB with its refresh worker.
+	profBackend *vc20ProfilesBackend
 
 	// forceFull makes the exercise create, start and query the listeners for
 	// every configuration (the other steps are repeated only if their input
@@ -349,6 +355,15 @@ func (fx *vc20Fixture) vc20FreshPorts(tb testing.TB, tree any) {
 	}
 }
 
+// vc20ProfilesBackendAddr returns the address of the profiles backend.
+func (fx *vc20Fixture) vc20ProfilesBackendAddr() (hostport string) {
+	if fx.profBackend != nil {
+		return fx.profBackend.addr
+	}
+
+	return fx.closed
+}
+
 // vc20RateLimitBackend returns the address of the rate-limit backend.
 func (fx *vc20Fixture) vc20RateLimitBackend() (hostport string) {
 	if fx.rlBackend != nil && !fx.rlBackend.refuse {
@@ -389,6 +404,42 @@ func (s *vc20RateLimitBackend) GetRateLimitSettings(
 	return &backendpb.RateLimitSettingsResponse{
 		AllowedSubnets: []*backendpb.CidrRange{{Address: []byte{203, 0, 113, 7}, Prefix: 32}},
 	}, nil
+}
+
+// vc20ProfilesBackend is a fake gRPC profiles backend without profiles.
+type vc20ProfilesBackend struct {
+	backendpb.UnimplementedDNSServiceServer
+
+	addr  string
+	calls atomic.Int64
+}
+
+// GetDNSProfiles implements the [backendpb.DNSServiceServer] interface for
+// *vc20ProfilesBackend.
+func (s *vc20ProfilesBackend) GetDNSProfiles(
+	_ *backendpb.DNSProfilesRequest,
+	srv grpc.ServerStreamingServer[backendpb.DNSProfile],
+) (err error) {
+	s.calls.Add(1)
+	srv.SetTrailer(metadata.Pairs("sync_time", strconv.FormatInt(time.Now().UnixMilli(), 10)))
+
+	return nil
+}
+
+// vc20StartProfilesBackend starts the fake profiles backend on a loopback port.
+func vc20StartProfilesBackend(tb testing.TB) (s *vc20ProfilesBackend) {
+	ln, err := net.Listen("tcp", "127.0.0.1:0")
+	if err != nil {
+		tb.Fatalf("fixture: %v", err)
+	}
+
+	s = &vc20ProfilesBackend{addr: ln.Addr().String()}
+	grpcSrv := grpc.NewServer(grpc.ConnectionTimeout(time.Second), grpc.Creds(insecure.NewCredentials()))
+	backendpb.RegisterDNSServiceServer(grpcSrv, s)
+	go func() { _ = grpcSrv.Serve(ln) }()
+	tb.Cleanup(grpcSrv.Stop)
+
+	return s
 }
 
 // vc20StartRateLimitBackend starts the fake backend on a loopback port.
@@ -560,7 +611,7 @@ func (fx *vc20Fixture) vc20Environment() (envs *environment) {
 		GeneralSafeSearchURL:     missing("general_ss.txt"),
 		LinkedIPTargetURL:        vc20URL("http://127.0.0.1:9/"),
 		NewRegDomainsURL:         missing("newreg.txt"),
-		ProfilesURL:              vc20URL("grpc://127.0.0.1:9"),
+		ProfilesURL:              vc20URL("grpc://" + fx.vc20ProfilesBackendAddr()),
 		RuleStatURL:              vc20URL("http://127.0.0.1:9/rulestat"),
 		SafeBrowsingURL:          missing("sb.txt"),
 		YoutubeSafeSearchURL:     missing("yt_ss.txt"),
